@@ -1,6 +1,8 @@
 package main
 
 import (
+	"reflect"
+
 	"github.com/go-i2p/common/certificate"
 	"github.com/go-i2p/common/data"
 	"github.com/go-i2p/common/destination"
@@ -18,8 +20,36 @@ import (
 	"github.com/go-i2p/common/signature"
 )
 
-// observe: everything a value reports through its public API, recomputed now.
+// observe: everything a value reports through its public API, recomputed now (the outcome of its own signature check included).
 func observe(v any) map[string]any {
+	m := observeFields(v)
+	if ok, has := verifyVal(v); has {
+		m["verify"] = ok
+	}
+	return m
+}
+
+// verifyVal: the value's argument-free Verify / VerifySignature, when it has one
+func verifyVal(v any) (ok, has bool) {
+	defer func() {
+		if recover() != nil {
+			ok, has = false, true
+		}
+	}()
+	rv := reflect.ValueOf(v)
+	if !rv.IsValid() || (rv.Kind() == reflect.Pointer && rv.IsNil()) {
+		return false, false
+	}
+	for _, name := range []string{"Verify", "VerifySignature"} {
+		m := rv.MethodByName(name)
+		if m.IsValid() && m.Type().NumIn() == 0 {
+			return verifySuccess(m.Call(nil)), true
+		}
+	}
+	return false, false
+}
+
+func observeFields(v any) map[string]any {
 	switch x := v.(type) {
 	case *certificate.Certificate:
 		return accCert(x)
@@ -170,6 +200,26 @@ func returnedSlices(v any) [][]byte {
 }
 
 func init() {
+	// ReadSigned: like Read, but the buffer holds a structure that really verifies (the specification's skeleton with real keys and
+	// signatures in its slots), so that what Verify() reports is part of the later observations
+	register("ReadSigned", func(s *Session, a Args) Res {
+		rd, ok := readers[a.Str("fn")]
+		if !ok {
+			return Res{"unknown_fn": true}
+		}
+		in, serr := buildSigned(s, a)
+		if serr != "" {
+			return Res{"setup": false, "verify": false, "err": "signing: " + serr}
+		}
+		o := rd(in, a)
+		if !o.OK || o.Val == nil {
+			return Res{"setup": false, "verify": false, "err": o.Err}
+		}
+		s.Vals[a.Str("h")] = o.Val
+		s.Bufs[a.Str("h")] = in
+		vok, has := verifyVal(o.Val)
+		return Res{"setup": true, "verify": vok && has, "err": ""}
+	})
 	register("Observe", func(s *Session, a Args) Res {
 		v, ok := s.Vals[a.Str("h")]
 		if !ok || v == nil {
